@@ -291,8 +291,9 @@ class C06(Property):
         if hung and not case.get("hang_ok"):
             ctx.fail("loopout:hang", "the step took its termination token and is blocked on its input port for ever", case)
         out = list(p_out.token_list)
-        self._lines.append(f"loopout {case['method']} " + " ".join(words))
-        self._expect.append((self._render(out, ids, hung), case))
+        exp = (self._render(out, ids, hung), case)
+        self._lines.append(f"loopout {case['method']} " + " ".join(words))   # appended together (never misaligned by a crash)
+        self._expect.append(exp)
         if not case.get("partial"):
             self._monitor(ctx, case, out)
         nmax = max([len(i["vals"]) for i in case["instances"]], default=0)
@@ -471,7 +472,6 @@ class C06(Property):
             else:
                 ids[id(t)] = len(ids)
                 words.append(f"d:{t.tag}:{ids[id(t)]}")
-        self._lines.append(f"loopout {case['method']} " + " ".join(words))
         parts = []
         for t in out[:-1]:
             if isinstance(t, ListToken):
@@ -479,6 +479,7 @@ class C06(Property):
             else:
                 src = [k for tok, k in ((x, ids[id(x)]) for x in in_port.token_list if id(x) in ids) if tok.value == t.value and t.value is not None]
                 parts.append(f"{t.tag}=" + ("None" if t.value is None else str(src[0]) if src else "?"))
+        self._lines.append(f"loopout {case['method']} " + " ".join(words))
         self._expect.append(((";".join(parts) or "-") + "|term=" + out[-1].value.name, case))
         ctx.case({"case": case, "arrival": words[:12], "out": [sd.untoken(t) for t in out][:3]},
                  ("network", case["method"], tuple(words)), "network")
